@@ -94,6 +94,7 @@ def raw_b(base, props, fns, desc, sse2=(4, 8), generic=(8,), thorough_sse2=(16,)
         tier = 'quick' if (n in sse2 or n in generic) else 'thorough'
         K('%s_n%d' % (base, n), 'B', props, fns, desc + ' [every abstract state with %d buckets]' % n, cfgs=cfgs, tier=tier,
           timeout=timeout, mem=4, bound='buckets == %d' % n)
+        KANI['%s_n%d' % (base, n)]['mem'] = 4 if n <= 8 else 14
         KANI['%s_n%d' % (base, n)]['cfg_tier'] = {'sse2': 'quick' if n in sse2 else 'thorough', 'generic': 'quick' if n in generic else 'thorough'}
 
 
